@@ -67,10 +67,18 @@ func (m *monitor) before(o Op) *preT {
 	return p
 }
 
+// at most a few failures per signature are reported, so that a frequent (known) one cannot crowd out a new one
+var failsPerSig = map[string]int{}
+
 func (m *monitor) fail(sig, what string) {
 	h := m.h
 	// each property reports its own findings; the shared root cause (re-vote after re-bond) is visible to both
 	if len(sig) < 3 || sig[:3] != h.prop {
+		return
+	}
+	h.rep.Count("monitor:" + sig)
+	failsPerSig[sig]++
+	if failsPerSig[sig] > 3 {
 		return
 	}
 	h.rep.Fail(lib.Failure{Kind: "monitor", What: fmt.Sprintf("%s [%s/%s op %d]", what, h.module, h.name, m.opIdx), Sig: sig, Replay: h.replay()})
